@@ -25,6 +25,7 @@ from ..algorithms import max_edge_order, unique_edge_sizes
 from ..convert import to_bipartite_edgelist
 from ..core import DiHypergraph, Hypergraph, SimplicialComplex
 from ..exception import XGIError
+from ..stats import IDStat
 from ..utils import subfaces
 from .draw_utils import (
     _CCW_sort,
@@ -387,10 +388,12 @@ def draw_nodes(
         Color of the nodes.  If str, use the same color for all nodes. If other iterable,
         or NodeStat, assume the colors are specified in the same order as the nodes are
         found in H.nodes. By default, "white".
-    node_ec : color or sequence of colors, optional
+    node_ec : color, sequence of colors, dict, or NodeStat, optional
         Color of node borders. If color, use the same color for all nodes. If sequence
         of colors, assume the colors are specified in the same order as the nodes are
-        found in H.nodes. By default, "black".
+        found in H.nodes. If a dict, must contain (node_id: color) pairs. Numerical
+        values (dict of floats, NodeStat) are mapped to colors with the colormap
+        `node_ec_cmap` of `params` (default: "Greys"). By default, "black".
     node_lw : int, float, iterable, or NodeStat, optional
         Line width of the node borders in pixels.  If int or float, use the same width
         for all node borders.  If iterable or NodeStat, assume the widths are specified
@@ -484,6 +487,17 @@ def draw_nodes(
     node_size = _draw_arg_to_arr(node_size, node_ids)
     node_fc = _draw_arg_to_arr(node_fc, node_ids)
     node_lw = _draw_arg_to_arr(node_lw, node_ids)
+
+    # border colors: a dict or NodeStat is looked up by node ID; numerical values
+    # (which scatter does not accept for `edgecolors`) are mapped to colors by hand
+    if isinstance(node_ec, (dict, IDStat)):
+        node_ec, node_ec_to_map = _parse_color_arg(node_ec, node_ids, id_kind="nodes")
+        if node_ec_to_map:
+            sm_node_ec = cm.ScalarMappable(
+                norm=mpl.colors.Normalize(),
+                cmap=settings.get("node_ec_cmap", "Greys"),
+            )
+            node_ec = sm_node_ec.to_rgba(node_ec)
 
     # avoid matplotlib scatter UserWarning "Parameters 'cmap' will be ignored"
     if isinstance(node_fc, str) or (
